@@ -303,3 +303,40 @@ def heap_by_tag(ctx, R, prog):
         ctx.check(R, ok, g.where(c), "%s targets _mi_heap_by_tag(heap, page->heap_tag) or heap" % g.nodes[c]["callee"], key=R + ":reclaim")
 
 
+
+
+def absorb_covers_all_queues(ctx, R, prog):
+    """C10.R2 / C01.R11: mi_heap_absorb appends every page queue 0..MI_BIN_FULL of the deleted heap (a page left behind keeps xheap pointing at the
+    heap structure that mi_heap_delete frees next: a later free in that page writes queue links into freed — possibly re-allocated — memory)"""
+    f = prog.fn("mi_heap_absorb")
+    full = prog.const("MI_BIN_FULL")
+    ok = False
+    for l in f.all(kind="ForStmt"):
+        n = f.nodes[l]
+        cond, init = n.get("cond"), n.get("init")
+        if cond is None or init is None or f.nodes[init]["k"] != "DeclStmt":
+            continue
+        ivs = [dd for dd in f.nodes[init]["decls"] if "init" in dd and f.cv(dd["init"]) == 0]
+        if len(ivs) != 1:
+            continue
+        c = rl.oriented(f, cond, True, rl.is_local(f, ivs[0]["d"]), rl.is_const(f))
+        if c and ((c[0] == "<=" and f.cv(c[2]) == full) or (c[0] == "<" and f.cv(c[2]) == full + 1)):
+            if any(rl.is_call(f, x, "_mi_page_queue_append") for x in f.walk(n["body"])) and f.mentions_decl(n["body"], ivs[0]["d"]):
+                ok = True
+    ctx.check(R, ok, f.where(), "the append loop covers bins 0..MI_BIN_FULL (=%d) inclusive" % full, key=R + ":bound")
+
+
+def rearm_respects_never(ctx, R, prog):
+    """C08.R1 / C09.R10: the owner's re-arm of delayed free while draining (_mi_free_delayed_block) must not override MI_NEVER_DELAYED_FREE — that state marks a page whose
+    heap is going away (abandon in progress); re-arming it sends the next remote free to a heap's delayed list that nobody will ever drain"""
+    f = prog.fn("_mi_free_delayed_block")
+    arm = [c for c in f.calls("_mi_page_try_use_delayed_free")]
+    ok = len(arm) == 1 and enum_arg_is(f, arm[0], 1, "MI_USE_DELAYED_FREE") and f.cv(rl.arg(f, arm[0], 2)) == 0
+    ctx.check(R, ok, f.where(arm[0]) if arm else f.where(), "re-arm with MI_USE_DELAYED_FREE, not overriding NEVER", key=R + ":arm")
+    g = prog.fn("_mi_page_try_use_delayed_free")
+    # the setter really leaves NEVER alone: on the `old_delay == MI_NEVER_DELAYED_FREE` edge (taken when override_never is false) the CAS is not reached
+    never = prog.enums.get("MI_NEVER_DELAYED_FREE")
+    cas = [e for e in g.all(kind="AtomicExpr") if g.nodes[e]["aop"].startswith("cas")]
+    hit = [q for p, q, e, pol in rl.edges_with_fact(g, lambda e, pol: isinstance(e, int) and rl.establishes(g, e, pol, "==", lambda j: g.cv(j) is None, rl.is_const(g, lambda v: v == never)))]
+    ok2 = bool(cas) and bool(hit) and not any(g.cfg.pt(c) in g.cfg.reach([q]) for q in hit for c in cas)
+    ctx.check(R, ok2, g.where(), "_mi_page_try_use_delayed_free leaves the flag alone on the `old == MI_NEVER_DELAYED_FREE` edge (no CAS reachable from it)", key=R + ":never_test")
